@@ -25,6 +25,8 @@ def modules():
     mods = [STATIC]
     if os.path.exists(os.path.join(LEAN, "NaijaVerif", "Props", "C04.lean")):
         mods.append(DYNAMIC)
+    if os.path.exists(os.path.join(LEAN, "NaijaVerif", "Props", "C04Bridge.lean")):
+        mods.append("NaijaVerif.Props.C04Bridge")
     return mods
 
 
